@@ -24,6 +24,11 @@ class _Stop(Exception):
     pass
 
 
+class ModelError(Exception):
+    """evaluating the component raises in the real code (argument error); only used
+    when the interpreter is told the error policy (C04)"""
+
+
 NEUTRAL = "neutral"
 
 ABOVE = {"above": ">", "gt": ">", "after": ">", "gte": ">=",
@@ -79,6 +84,7 @@ class Result:
         self.advanced = False
         self.fired = []           # (pos, comp index, what) control events
         self.flags = set()        # trigger flags for known findings
+        self.error_lines = []
         self.undefined = None
 
 
@@ -99,6 +105,7 @@ class Interp:
         self.has_blank = len(nonblank) != len(records)
         self.valid_at = []
         self.reading_onmatch_written = set()
+        self.error_policy = None   # None: errors are outside the model (UNDEFINED)
 
     # ------------------------------------------------------------------ run
     def run(self):
@@ -198,9 +205,15 @@ class Interp:
         # onmatch needs "the rest of the line matches": computed lazily by a pure pre-pass
         self.rest_cache = {}
         stop_at = None
+        line_errors = 0
         for i, c in enumerate(self.comps):
             self.ci = i
-            v = self._component(c)
+            try:
+                v = self._component(c)
+            except ModelError:
+                v = False
+                line_errors += 1
+                self.res.error_lines.append(self.pos)
             votes.append(v)
             if self.stopped:
                 stop_at = i
@@ -208,6 +221,13 @@ class Interp:
             if self.skipped:
                 break
         trace["vars"] = None
+        if line_errors:
+            trace["errors"] = line_errors
+            if "fail" in self.error_policy:
+                self.res.is_valid = False
+            if "stop" in self.error_policy:
+                self.stopped = True
+                stop_at = len(self.comps) - 1 if stop_at is None else stop_at
         if self.skipped:
             trace["skipped"] = True
             return False
@@ -252,6 +272,8 @@ class Interp:
                 votes.append(NEUTRAL)
                 continue
             if c[0] == "->":
+                if c[2][0] == "f" and c[2][1] in ("stop", "fail_and_stop", "skip", "advance"):
+                    raise Undefined("onmatch look-ahead across a control action")
                 lv = self._pure_vote(c[1])
                 nocontrib = c[1][0] == "f" and "nocontrib" in c[1][2]
                 votes.append(NEUTRAL if nocontrib else lv)
@@ -259,6 +281,8 @@ class Interp:
             if c[0] == "f" and c[1] in SIDE_EFFECTS:
                 if "onmatch" in c[2]:
                     raise Undefined("two onmatch components on one line")
+                if c[1] in ("stop", "fail_and_stop", "skip", "advance"):
+                    raise Undefined("onmatch look-ahead across a control function")
                 votes.append(NEUTRAL)
                 continue
             votes.append(self._pure_vote(c))
@@ -686,6 +710,8 @@ class Interp:
         for a in args:
             v = num(self.val(a))
             if v is None:
+                if self.error_policy is not None and isinstance(self.val(a), str) and self.val(a).strip() != "":
+                    raise ModelError("arithmetic on non-numeric text")
                 raise Undefined("arithmetic on a non-number")
             if v != v:
                 raise Undefined("nan as an operand")
